@@ -170,6 +170,13 @@ Fixpoint dins (kv : contig * N) (l : dict) : dict :=
 Definition show_dict (d : dict) : bytes :=
   joinw COMMA (map (fun kv => show_x (fst kv) ++ EQ :: show_N (snd kv)) (fold_right dins [] d)).
 
+(* the per-contig index in stored (sorted) order, contigs sorted by name *)
+Fixpoint iins (kv : contig * lapper pair) (l : list (contig * lapper pair)) : list (contig * lapper pair) :=
+  match l with [] => [kv] | h :: r => if bytes_ltb (fst kv) (fst h) then kv :: l else h :: iins kv r end.
+Definition show_liv (x : liv pair) : bytes := show_N (lstart x) ++ MINUS :: show_N (lstop x) ++ EQ :: show_pair (lval x).
+Definition show_inner (m : list (contig * lapper pair)) : bytes :=
+  joinw SP (map (fun kv => show_x (fst kv) ++ EQ :: 91 :: joinw COMMA (map show_liv (ivs (snd kv))) ++ [93]) (fold_right iins [] m)).
+
 Definition show_lift (r : outcome (option (list pair))) : bytes :=
   match r with
   | Panic _ => w_panic
@@ -308,6 +315,16 @@ Definition run_tokens (ts : list bytes) : bytes :=
         match sdrain CAP sections_new (raw_reads s) with
         | Panic _ => w_panic
         | Val (items, ended) => joinw SP (map show_sitem items ++ [if ended then w_end else w_cap])
+        end
+      end
+    else if bytes_eqb cmd [100;117;109;112] (* dump <src> *) then
+      match parse_src a with
+      | None => w_badcase
+      | Some s =>
+        match build s with
+        | Panic _ => w_panic
+        | Val (Err e) => sp w_err (show_builderr e)
+        | Val (Ok m) => joinw SP [w_ok; [114;101;102;61] ++ show_dict (mref m); [113;114;121;61] ++ show_dict (mqry m); show_inner (minner m)]
         end
       end
     else if bytes_eqb cmd [108;105;110;101;115] (* lines <src> *) then
